@@ -1574,11 +1574,15 @@ class Model(Object):
             if c.name not in new_model.constraints and c.name not in right.metabolites
         ]
         new_model.add_cons_vars(new_cons, sloppy=True)
+        direction = self.objective.direction
         new_model.objective = dict(
             left=self.objective,
             right=right.objective,
             sum=self.objective.expression + right.objective.expression,
         )[objective]
+        if objective == "sum":
+            # an expression carries no direction: keep the left model's
+            new_model.objective_direction = direction
         return new_model
 
     def _repr_html_(self) -> str:
